@@ -22,8 +22,9 @@ import (
 
 // PortSpec is one port of an agent.
 type PortSpec struct {
-	Cap  int `json:"cap"`
-	Conn int `json:"conn"`
+	Cap    int `json:"cap"`               // incoming (and, unless OutCap is set, outgoing) capacity
+	OutCap int `json:"out_cap,omitempty"` // outgoing capacity when different
+	Conn   int `json:"conn"`
 }
 
 // AgentSpec is one harness component.
@@ -112,6 +113,7 @@ type world struct {
 	conns    []*directconnection.Comp
 	portByNm map[string]messaging.Port
 	portCap  map[string]int
+	portOut  map[string]int
 	portOwn  map[string]*agent
 	obs      []obs
 	seq      uint64
@@ -313,8 +315,8 @@ func (h portHook) Func(ctx hooking.HookCtx) {
 	case messaging.HookPosPortMsgSend:
 		o.kind = "send"
 
-		if len(w.outQ[name]) >= w.portCap[name] {
-			w.fail("C11:outgoing-overflow", "port %s accepted a send with %d messages already in an outgoing buffer of capacity %d", name, len(w.outQ[name]), w.portCap[name])
+		if len(w.outQ[name]) >= w.portOut[name] {
+			w.fail("C11:outgoing-overflow", "port %s accepted a send with %d messages already in an outgoing buffer of capacity %d", name, len(w.outQ[name]), w.portOut[name])
 		}
 
 		w.outQ[name] = append(w.outQ[name], m)
@@ -348,7 +350,7 @@ func (h portHook) Func(ctx hooking.HookCtx) {
 		if len(w.outQ[name]) == 0 || !reflect.DeepEqual(w.outQ[name][0], m) {
 			w.fail("C11:outgoing-fifo", "port %s returned message seq=%d hop=%d from its outgoing buffer, model head is %v", name, m.Seq, m.HopIx, headOf(w.outQ[name]))
 		} else {
-			if len(w.outQ[name]) == w.portCap[name] && own != nil {
+			if len(w.outQ[name]) == w.portOut[name] && own != nil {
 				w.freeNotif[own.name] = append(w.freeNotif[own.name], o.time)
 			}
 
@@ -403,7 +405,7 @@ func (h engHook) Func(ctx hooking.HookCtx) {
 				w.fail("C11:size-report", "port %s reports %d incoming / %d outgoing, model has %d / %d", name, p.NumIncoming(), p.NumOutgoing(), len(w.inQ[name]), len(w.outQ[name]))
 			}
 
-			if p.NumIncoming() > w.portCap[name] || p.NumOutgoing() > w.portCap[name] {
+			if p.NumIncoming() > w.portCap[name] || p.NumOutgoing() > w.portOut[name] {
 				w.fail("C11:capacity", "port %s holds %d incoming / %d outgoing with capacity %d", name, p.NumIncoming(), p.NumOutgoing(), w.portCap[name])
 			}
 		}
@@ -413,7 +415,7 @@ func (h engHook) Func(ctx hooking.HookCtx) {
 func build(c *NetCase) *world {
 	w := &world{
 		c: c, eng: timing.NewSerialEngine(), portByNm: map[string]messaging.Port{},
-		portCap: map[string]int{}, portOwn: map[string]*agent{}, curTick: -1,
+		portCap: map[string]int{}, portOut: map[string]int{}, portOwn: map[string]*agent{}, curTick: -1,
 		inQ: map[string][]netMsg{}, outQ: map[string][]netMsg{},
 		recvNotif: map[string][]uint64{}, freeNotif: map[string][]uint64{}, probes: map[string]int{},
 	}
@@ -441,7 +443,12 @@ func build(c *NetCase) *world {
 
 		for pi, ps := range as.Ports {
 			pn := fmt.Sprintf("P%d", pi)
-			p := messaging.NewPort(owner, ps.Cap, ps.Cap, a.name+"."+pn)
+			outCap := ps.Cap
+			if ps.OutCap > 0 {
+				outCap = ps.OutCap
+			}
+
+			p := messaging.NewPort(owner, ps.Cap, outCap, a.name+"."+pn)
 			owner.DeclarePort(pn)
 			owner.AssignPort(pn, p)
 			w.conns[ps.Conn].PlugIn(p)
@@ -449,6 +456,7 @@ func build(c *NetCase) *world {
 			a.ports = append(a.ports, p)
 			w.portByNm[p.Name()] = p
 			w.portCap[p.Name()] = ps.Cap
+			w.portOut[p.Name()] = outCap
 			w.portOwn[p.Name()] = a
 		}
 
@@ -508,6 +516,7 @@ func GenNet(r *kit.Rand, tier kit.Tier, maxConns int) NetCase {
 
 	na := r.Range(2, 6)
 	capMode := r.Intn(3) // 0: all 1, 1: 1-4, 2: mixed
+	asym := r.Chance(1, 3) // ports whose outgoing capacity differs from the incoming one
 	evBias := r.Intn(4)  // how many agents are event-driven: 0 none .. 3 most
 	stallBias := r.Intn(3)
 	lattice := r.PickU64(1000, 1000, 500, 2000, 333)
@@ -535,7 +544,13 @@ func GenNet(r *kit.Rand, tier kit.Tier, maxConns int) NetCase {
 			}
 
 			conn := r.Intn(nc)
-			a.Ports = append(a.Ports, PortSpec{Cap: capv, Conn: conn})
+			ps := PortSpec{Cap: capv, Conn: conn}
+
+			if asym && r.Bool() {
+				ps.OutCap = r.PickInt(1, 2, 3, 4, 8)
+			}
+
+			a.Ports = append(a.Ports, ps)
 			connMembers[conn] = append(connMembers[conn], [2]int{i, p})
 		}
 
